@@ -495,7 +495,7 @@ def closure_rules(rep, prog):
             ok = idx[1][0] == i and col == ("binop", "-", d, ("set", (i,))) and is_const(st.value, 1) and st.aug is None \
                 and li["init"].get(norm(st.basenode)) == ("ext", "numpy.zeros_like", (("param", "A"),), ())
             why = "store %s[%s] = %s over base %s" % (fmt(st.base), fmt(idx), fmt(st.value), fmt(li["init"].get(norm(st.basenode))))
-    if not ok and why == "no store found":
+    if not ok and (why == "no store found" or any(v["iter"] is None for k, v in loops)):
         rep.unk("CLOSURE.store", fwhere(f), "the closure is not filled by one store per node inside a loop over the nodes: this form is not read")
     else:
         rep.check("CLOSURE.store", ok, fwhere(f), "closure[i, descendants(i, A) - {i}] = 1 for every i over a zero matrix",
